@@ -376,6 +376,9 @@ def rule_r3(repo):
         ('two nesting levels', [SEQ(360001, [DEL([])]), SEQ(361002, [E(1001), SEQ(360002, [DEL([])]), E(12101)]), E(7004)],
          [(101000, [(361002, [1001, (101000, [12101])])]), 7004]),
         ('ordinary replication kept', [DEL([E(12101)]), E(1001)], [(101000, [12101]), 1001]),
+        ('sequence that consists of one complete replication kept as it is', [SEQ(302036, [DEL([E(12101), E(10004)], 2)]), E(1001)],
+         [(302036, [(102000, [12101, 10004])]), 1001]),
+        ('sequence of one complete single-member replication kept', [E(1001), SEQ(302004, [DEL([E(20011)])]), E(12101)], [1001, (302004, [(101000, [20011])]), 12101]),
         ('the same helper sequence object used twice', (lambda h: [h, E(12101), h, E(10004), E(1001)])(SEQ(360001, [DEL([])])), [(101000, [12101]), (101000, [10004]), 1001]),
         ('the same helper sequence object used twice, nested', (lambda h: [h, SEQ(361002, [E(1001), h, E(12101)]), E(7004)])(SEQ(360002, [DEL([])])),
          [(101000, [(361002, [1001, (101000, [12101])])]), 7004]),
